@@ -34,6 +34,7 @@ ViewClauses(r) ==
             <<"row iterators are independent objects (two alive at once = each read alone)", Has(r, "iters_independent") => r.iters_independent>>,
             <<"spmv on the adapter = definition", wf /\ r.y = SpmvDef(r.out, r.x)>>,
             <<"zero-copy: same pointers, not owned", Has(r, "ident") => (r.ident /\ ~r.own /\ r.bytes0)>>,
+            <<"scaled_problem: results of separate rhs() calls do not alias (the first is still S b1 after the second call)", Has(r, "rhs_independent") => r.rhs_independent>>,
             <<"reordered_vector / forward / inverse",
                  (Has(r, "vfw") => (r.vfw = Forward(r.perm, r.vx) /\ r.vback = r.vx)) /\ (Has(r, "roundtrip") => r.roundtrip)>> >>
 
